@@ -23,7 +23,8 @@ TWrap == IsEvent("wrap") /\ UNCHANGED <<pidvars, fvars, lgvars>> /\ Wrap02OK(Tr[
 TAlgo == IsEvent("algo") /\ UNCHANGED <<pidvars, fvars, lgvars>> /\ (AlgoOK(Tr[l]) = TRUE)
 TIntervalN == IsEvent("intervaln") /\ UNCHANGED <<pidvars, fvars, lgvars>> /\ (IntervalNOK(Tr[l]) = TRUE)
 TRansacIt == IsEvent("ransacit") /\ UNCHANGED <<pidvars, fvars, lgvars>> /\ (RansacItOK(Tr[l]) = TRUE)
-TraceNext == TRansacIt \/ TLgAdd \/ TLgWrite \/ TLgFile \/ TWrap \/ TAlgo \/ TIntervalN \/ TNlse \/ TRansac \/ TReset \/ TPid \/ TFilter \/ TFReset \/ TOneToOne \/ TDuration
+TMest == IsEvent("mest") /\ UNCHANGED <<pidvars, fvars, lgvars>> /\ (MestOK(Tr[l]) = TRUE)
+TraceNext == TMest \/ TRansacIt \/ TLgAdd \/ TLgWrite \/ TLgFile \/ TWrap \/ TAlgo \/ TIntervalN \/ TNlse \/ TRansac \/ TReset \/ TPid \/ TFilter \/ TFReset \/ TOneToOne \/ TDuration
 TraceSpec == TraceInit /\ [][TraceNext]_tvars
 TraceAccepted == TLCGet("stats").diameter - 1 = Len(Tr)
 =============================================================================
